@@ -38,6 +38,7 @@ from ttconv.filters.isd.merge_regions import RegionsMergingISDFilter
 from ttconv.filters.isd.supported_style_properties import SupportedStylePropertiesISDFilter
 from ttconv.isd import ISD
 from ttconv.vtt.cue import VttCue
+from ttconv.time_code import ClockTime
 from ttconv.vtt.css_class import CssClass
 from ttconv.style_properties import DirectionType, ExtentType, PositionType, StyleProperties, FontStyleType, NamedColors, \
                                     FontWeightType, TextDecorationType, DisplayAlignType, TextAlignType
@@ -281,6 +282,10 @@ def from_model(doc: model.ContentDocument, config = None, progress_callback=lamb
   for i, (begin, isd) in enumerate(isds):
 
     end = isds[i + 1][0] if i + 1 < len(isds) else None
+
+    if end is not None and ClockTime.from_seconds(end) == ClockTime.from_seconds(begin):
+      # the interval vanishes at millisecond precision
+      continue
 
     vtt.add_isd(isd, begin, end)
 
